@@ -159,6 +159,99 @@ def spec_order(ops, upto, c, which):
     return out
 
 
+def history_cases(chk, rng):
+    """stated directly on the implementation:
+       (a) ONE unit object solved several times while the factories' answers change (a factory that returned a processor may return nothing next time,
+           or a differently configured one): each solve uses exactly that solve's answers, in hierarchy/registration order;
+       (b) processors that change the profile they are given IN PLACE: a post-processor registered on a base class only must leave unit.out_profile
+           alone, and a pre-processor of the NEXT unit must not reach back into the previous unit's out profile"""
+    from pyroll.core import Transport, Unit, Profile, PassSequence
+    from pyroll.core.profile import Profile as BaseProfile
+    calls = []
+
+    class Proc(Unit):
+        def __init__(self, pid, inplace=False):
+            super().__init__(label=f"proc{pid}")
+            self.pid, self.inplace = pid, inplace
+
+        def solve(self, in_profile):
+            calls.append(self.pid)
+            if self.inplace:
+                in_profile.marks = tuple(getattr(in_profile, 'marks', ())) + (self.pid,)
+                return in_profile
+            d = {k: v for k, v in in_profile.__dict__.items() if not k.startswith("_")}
+            d['marks'] = tuple(d.get('marks', ())) + (self.pid,)
+            return BaseProfile(**d)
+
+    def ip():
+        return Profile.round(radius=10e-3, temperature=1273.15, strain=0, material="steel", length=1, t=0, marks=())
+    # (a)
+    for trial in range(6 if not chk.thorough else 40):
+        Base = type("HB", (Transport,), {})
+        Sub = type("HS", (Base,), {})
+        plans = []          # per factory: where registered, pre/post, list of answers per solve
+        nsolves = rng.randint(2, 4)
+        for fid in range(rng.randint(2, 5)):
+            kind = rng.choice(['pre', 'pre', 'post'])
+            owner = rng.choice([Base, Sub])
+            answers = [rng.choice([None, 100 + 10 * fid + k, 100 + 10 * fid]) for k in range(nsolves)]
+            state = {'k': -1}
+
+            def make(answers=answers, state=state):
+                def factory(unit):
+                    a = answers[state['k']]
+                    return None if a is None else Proc(a)
+                return factory
+            (owner.pre_processors if kind == 'pre' else owner.post_processors).append(make())
+            plans.append((kind, owner, answers, state))
+        u = Sub(label="u", duration=1)
+        for k in range(nsolves):
+            for _, _, _, st in plans:
+                st['k'] = k
+            calls.clear()
+            ret = u.solve(ip())
+            chk.cov['evaluations'] += 1
+
+            def expect(kind):
+                out = []
+                for cls in (Base, Sub):
+                    out += [a[k] for kd, ow, a, _ in plans if kd == kind and ow is cls and a[k] is not None]
+                return out
+            want = expect('pre') + expect('post')
+            data = {'solve': k + 1, 'plans': [(kd, ow.__name__, a) for kd, ow, a, _ in plans]}
+            if list(calls) != want:
+                return chk.fail('processor-history', f"solve {k + 1} of the same unit object: processors run {list(calls)}, this solve's factories answer "
+                                f"{want} (pre then post, base class before subclass, registration order; a factory answering nothing is skipped)", data)
+            if list(u.in_profile.marks) != expect('pre') or list(u.out_profile.marks) != expect('pre') or list(ret.marks) != want:
+                return chk.fail('processor-history', f"solve {k + 1}: marks in={list(u.in_profile.marks)} out={list(u.out_profile.marks)} returned={list(ret.marks)}, "
+                                f"expected in=out={expect('pre')}, returned={want}", data)
+    # (b)
+    for where in ('base', 'own', 'none'):
+        Base = type("IB", (Transport,), {})
+        Sub = type("IS", (Base,), {})
+        if where != 'none':
+            (Base if where == 'base' else Sub).post_processors.append(lambda unit: Proc(7, inplace=True))
+        Next = type("IN", (Transport,), {})
+        Next.pre_processors.append(lambda unit: Proc(9, inplace=True))
+        u, n = Sub(label="u", duration=1), Next(label="n", duration=1)
+        seq = PassSequence([u, n])
+        calls.clear()
+        p = ip()
+        ret = seq.solve(p)
+        chk.cov['evaluations'] += 1
+        data = {'post_processor_on': where}
+        if 7 in tuple(u.out_profile.marks):
+            return chk.fail('post-touches-unit', f"an in-place post-processor registered on {'a base class' if where == 'base' else 'the class'} of the unit changed "
+                            f"unit.out_profile (marks {list(u.out_profile.marks)}): post-processors act on the returned profile only", data)
+        if 9 in tuple(u.out_profile.marks):
+            return chk.fail('pre-reaches-back', f"the in-place pre-processor of the next unit changed the previous unit's out profile (marks {list(u.out_profile.marks)}; "
+                            f"post-processor on: {where})", data)
+        if 9 not in tuple(n.in_profile.marks) or (where != 'none' and 7 not in tuple(n.in_profile.marks)):
+            return chk.fail('processor-history', f"in-place processors: next unit's in profile carries {list(n.in_profile.marks)}", data)
+        if tuple(p.marks) != ():
+            return chk.fail('post-touches-unit', "the caller's incoming profile was changed by an in-place processor", data)
+
+
 def run(chk):
     chk.coq.add_prop_file('C18.v')
     chk.coq.compile('C18.v', is_props=True, timeout=300)
@@ -212,6 +305,8 @@ def run(chk):
         chk.unshown_add(f"correspondence:case{i}", "model and implementation disagree on " + json.dumps(all_ops[i], default=str)[:1000])
     if bad and not chk.failures:
         chk.fail('deviation', "implementation deviates from the verified processor model", {'history': all_ops[bad[0]]})
+    if not chk.failures:
+        history_cases(chk, random.Random(chk.seed * 18 + 1801))
     chk.cov['rule'] = ("seeded unit class hierarchies (chains, diamonds, trees, with non-unit mixins) x interleavings of class "
                        "definitions and pre/post registrations (factories returning a processor or None), every class solved alone "
                        "or inside a sequence; distinct = distinct histories")
